@@ -303,8 +303,12 @@ class GizaCategory(Generic[_I]):
 
                 parent = _parent
             except StopIteration:
+                # Name the entry that was asked for: the child's own ref may be absent, or
+                # left over from an earlier, successful inheritance
                 diagnostics.append(
-                    FailedToInheritRef(f"Failed to inherit {obj.ref}", obj.line)
+                    FailedToInheritRef(
+                        f"Failed to inherit {parent_identifier.ref}", obj.line
+                    )
                 )
                 return obj
 
